@@ -356,7 +356,7 @@ func runProperty(id, tier string) int {
 	var out runOutcome
 	ev := newEvidence(id, tier, seed, ps)
 	ev.LoadSecs = ld.LoadSecs
-	for _, hs := range specs {
+	for si, hs := range specs {
 		cfg := interp.DefaultConfig()
 		cfg.Solver = ps.Solver
 		if hs.Solver != "" {
@@ -396,8 +396,8 @@ func runProperty(id, tier string) int {
 			continue
 		}
 		pkgRel := pkgRelOf(eng, hs.Name)
-		fmt.Printf("[%s %s] %s: %d paths (%v), %d assertion queries, %d discharged, %d concrete asserts, %d solver queries, %.1fs\n",
-			id, tier, hs.Name, rep.Paths, rep.Outcomes, rep.Obligations, rep.Discharged, rep.ConcreteAsrt, eng.Stats.Queries, rep.Secs)
+		fmt.Printf("[%s %s] %s %v: %d paths (%v), %d assertion queries, %d discharged, %d concrete asserts, %d solver queries, %.1fs\n",
+			id, tier, hs.Name, hs.Params, rep.Paths, rep.Outcomes, rep.Obligations, rep.Discharged, rep.ConcreteAsrt, eng.Stats.Queries, rep.Secs)
 		hev := ev.addHarness(hs, rep, eng)
 
 		// inconclusive paths
@@ -441,7 +441,7 @@ func runProperty(id, tier string) int {
 			if kf == nil && nrep >= 6 {
 				continue
 			}
-			path := filepath.Join(verifDir, "replays", id, fmt.Sprintf("%s-%s-%d.json", hs.Name, tier, vi))
+			path := filepath.Join(verifDir, "replays", id, fmt.Sprintf("%s-%s-%d-%d.json", hs.Name, tier, si, vi))
 			b, _ := json.MarshalIndent(rj, "", " ")
 			os.WriteFile(path, b, 0o644)
 			nr, err := rp.run(pkgRel, path, 120*time.Second)
